@@ -793,6 +793,9 @@ Definition request_task_rerun (t : string) (route : nat) (reset_items : bool) : 
   forM_ sq (fun i => upd_rec i (fun r => r_set_term r false)).
 
 Definition nat_list_diff_nonempty (a b : list nat) : bool := existsb (fun x => negb (nat_in x b)) a.
+(* set(a) < set(b): a request whose sequence is part of another request's sequence is collapsed *)
+Definition nat_list_proper_subset (a b : list nat) : bool :=
+  negb (nat_list_diff_nonempty a b) && nat_list_diff_nonempty b a.
 
 Definition request_workflow_rerun (reqs : list rerun_req) : M unit :=
   ensure_ws ;;;
@@ -823,7 +826,7 @@ Definition request_workflow_rerun (reqs : list rerun_req) : M unit :=
                let collapsed :=
                  match tasks_d with
                  | [_] => seqs
-                 | _ => filter (fun '(_, i) => existsb (fun '(_, j) => nat_list_diff_nonempty i j) seqs) seqs
+                 | _ => filter (fun '(_, i) => negb (existsb (fun '(_, j) => nat_list_proper_subset i j) seqs)) seqs
                  end in
                ret (flat_map (fun '(k, q) =>
                                 if ahas tkey_eqb k collapsed then
